@@ -25,22 +25,57 @@ use vcommon::{Args, Report};
 /// Largest single allocation request since the last reset (C14's allocation monitor)
 pub static ALLOC_MAX: AtomicUsize = AtomicUsize::new(0);
 
+/// Optional hard limits (c14child sets them): a single request above ALLOC_CAP_SINGLE, or a
+/// request that would take the live total above ALLOC_CAP_LIVE, is refused (null), which ends the
+/// process with "memory allocation of N bytes failed" - the parent attributes that to the prefix
+/// being opened. Without limits a runaway allocation loop would take the whole machine down.
+pub static ALLOC_CAP_SINGLE: AtomicUsize = AtomicUsize::new(usize::MAX);
+pub static ALLOC_CAP_LIVE: AtomicUsize = AtomicUsize::new(usize::MAX);
+pub static ALLOC_LIVE: AtomicUsize = AtomicUsize::new(0);
+
+#[inline]
+fn admit(n: usize) -> bool {
+    ALLOC_MAX.fetch_max(n, Ordering::Relaxed);
+    if n > ALLOC_CAP_SINGLE.load(Ordering::Relaxed) {
+        return false;
+    }
+    let live = ALLOC_LIVE.fetch_add(n, Ordering::Relaxed) + n;
+    if live > ALLOC_CAP_LIVE.load(Ordering::Relaxed) {
+        ALLOC_LIVE.fetch_sub(n, Ordering::Relaxed);
+        return false;
+    }
+    true
+}
+
 struct CountingAlloc;
 unsafe impl GlobalAlloc for CountingAlloc {
     unsafe fn alloc(&self, l: Layout) -> *mut u8 {
-        ALLOC_MAX.fetch_max(l.size(), Ordering::Relaxed);
+        if !admit(l.size()) {
+            return std::ptr::null_mut();
+        }
         System.alloc(l)
     }
     unsafe fn dealloc(&self, p: *mut u8, l: Layout) {
+        ALLOC_LIVE.fetch_sub(l.size(), Ordering::Relaxed);
         System.dealloc(p, l)
     }
     unsafe fn alloc_zeroed(&self, l: Layout) -> *mut u8 {
-        ALLOC_MAX.fetch_max(l.size(), Ordering::Relaxed);
+        if !admit(l.size()) {
+            return std::ptr::null_mut();
+        }
         System.alloc_zeroed(l)
     }
     unsafe fn realloc(&self, p: *mut u8, l: Layout, n: usize) -> *mut u8 {
-        ALLOC_MAX.fetch_max(n, Ordering::Relaxed);
-        System.realloc(p, l, n)
+        if !admit(n) {
+            return std::ptr::null_mut();
+        }
+        let q = System.realloc(p, l, n);
+        if q.is_null() {
+            ALLOC_LIVE.fetch_sub(n, Ordering::Relaxed);
+        } else {
+            ALLOC_LIVE.fetch_sub(l.size(), Ordering::Relaxed);
+        }
+        q
     }
 }
 #[global_allocator]
